@@ -59,6 +59,8 @@ def make_validator(settings):
                     ctx.check_hostname = False
                     ctx.verify_mode = ssl.CERT_NONE
                     ctx.set_alpn_protocols(["acme-tls/1"])
+                    if settings.get("validator_tls12"):
+                        ctx.maximum_version = ssl.TLSVersion.TLSv1_2      # RFC 8737: "TLS 1.2 or higher" - a validator need not speak 1.3
                     s = ctx.wrap_socket(raw, server_hostname=ident)
                     sel = s.selected_alpn_protocol()
                     der = s.getpeercert(binary_form=True)
@@ -114,7 +116,7 @@ def scenario(i, group, git, setvars, ident, root, issuances):
     idents = list(ident) if isinstance(ident, (list, tuple)) else [ident]
     ident = idents[0]
     scratch = os.path.join(root, "w%03d" % i)
-    settings = {"group": group}
+    settings = {"group": group, "validator_tls12": i % 3 == 1}
     cenv = {}
     # below the kernel's ephemeral range (32768..60999), so that no client socket of another process can be sitting on it,
     # spread by process id so that two copies of this check do not meet, and tested free
